@@ -432,9 +432,16 @@ func c34emit(ctx *hlib.Ctx, in *c34in, srv *c34server, kind string) {
 	for i, b := range bol {
 		bos[i] = hlib.B(b)
 	}
-	scr := make([]string, len(in.script))
+	// the script as far as the environment was consulted: one entry per observed round trip
+	// (entries never played cannot influence the implementation; if the model wanted more round
+	// trips than were observed it disagrees on their number whatever the entries say)
+	played := in.script
+	if len(run.trips) < len(played) {
+		played = played[:len(run.trips)]
+	}
+	scr := make([]string, len(played))
 	var hist []string
-	for i, s := range in.script {
+	for i, s := range played {
 		scr[i] = fmt.Sprintf("mkrt %s %s", c34optN(s.read), c34optN(s.out))
 	}
 	first := ""
